@@ -155,6 +155,12 @@ func pass(t Test, v int) bool {
 		return v < t.N
 	case "const":
 		return t.N == 1
+	case "has":
+		return v >= t.N
+	case "nlen":
+		return v != t.N
+	case "nhas":
+		return v < t.N
 	}
 	return false
 }
